@@ -83,10 +83,13 @@ def r15_2(ck, F):
         # the same local is captured by the callback closure
         captured = False
         child = None
+        cap_name = None
         for cb, ci, s in b.assigns():
             if s["rv"]["r"] == "agg" and s["rv"].get("kind") == "closure" and ["m", [rx_local]] in s["rv"]["ops"]:
                 captured = True
                 child = F.by_dp.get((b.crate, s["rv"]["dp"]))
+                j = s["rv"]["ops"].index(["m", [rx_local]])
+                cap_name = child.upvars[j] if child is not None and j < len(child.upvars) else None
         # other seen-marking calls on that local in serialize
         marks = [x for x, t in b.calls(MARKING) if any(d[0] == "assign" and d[3]["rv"]["r"] == "ref" and d[3]["rv"]["p"][0] == rx_local
                                                        for a in t["a"][:1] if a[0] != "k" for d in b.defs.get(a[1][0], []))]
@@ -98,7 +101,7 @@ def r15_2(ck, F):
                 for cb2, t in k.calls():
                     if mir.strip_generics(callee(t) or "") == "rch::watch::send_impl":
                         e0 = k.expr(t["a"][0])
-                        ok = ok or (e0[0] == "path" and e0[1].split(".")[0] == "rx")
+                        ok = ok or (e0[0] == "path" and cap_name is not None and e0[1].split(".")[0] == cap_name)
         ck.expect(ok, "Receiver::serialize#forwarder-arg", "send_impl is started with the captured receiver",
                   "send_impl is not given the captured (marked) receiver", b.loc(bb, i))
     de = [x for k, x in F.bodies.items() if k.startswith("<rch::watch::sender::Sender") and k.endswith("::deserialize") and "Deserialize" in k]
@@ -125,7 +128,7 @@ def r15_3(ck, F):
     s, arm = ch[0]
     poll = s["poll_bb"]
     # exit through changed() == Err exists
-    errs = [tb for sb, tb, m, e in switch_edges(b, lambda e: e[0] == "discr", b.reach([arm["target"]], avoid=[poll]))
+    errs = [tb for sb, tb, m, e in outcome_edges(b, b.reach([arm["target"]], avoid=[poll]))
             if m == "Err" and poll not in b.reach([tb], avoid=[sb])]
     ck.expect(bool(errs), "send_impl#exit-on-changed-err", "the loop ends when changed() returns Err (sender gone and nothing unseen)",
               "watch::send_impl has no exit on changed() == Err", b.loc(arm["target"]))
